@@ -176,12 +176,37 @@ def known_groups(pid):
         import os
         d = json.load(open(os.path.join(os.path.dirname(os.path.abspath(__file__)), "..", "known_findings.json")))
         g = {}
+        lim = {}
         for f in d["findings"]:
             if f.get("property") == pid and f.get("status", "known") == "known" and "tags" in f:
                 g[f["id"]] = (f["family"], set(f["tags"]))
+                lim.update(f.get("max_per_chunk", {}))
         g[""] = ("", set())
         _GROUPS[pid] = g
+        _LIMITS[pid] = lim
     return _GROUPS[pid]
+
+
+_LIMITS = {}
+
+
+def split_failures(pid, fails, g):
+    """the failures of one chunk that belong to the case of group g.  A class of a known finding is credited to that finding only
+    up to twice the largest number of failures of the class recorded for one chunk (+3): a change that makes a listed mnemonic
+    fail for many more inputs is reported by the '' case, as are the classes no finding lists."""
+    import collections
+    gs = known_groups(pid)
+    lim = _LIMITS[pid]
+    count = collections.Counter(t for t, _ in fails)
+    excess = set(t for t, c in count.items() if t in lim and c > 2 * lim[t] + 3)
+    if g:
+        return [(t, w) for t, w in fails if t in gs[g][1] and t not in excess]
+    known = set().union(*(ts for _, ts in gs.values()))
+    out = [(t, w) for t, w in fails if t not in known]
+    for t in sorted(excess):
+        w = next(w for tt, w in fails if tt == t)
+        out.append((t + ":frequency", "%d failures of the class %s in this chunk (the known finding records at most %d per chunk), e.g. %s" % (count[t], t, lim[t], w)))
+    return out
 
 
 def groups():
@@ -249,11 +274,7 @@ class LiftCases(BoundedContract):
     def check(self, case):
         a, k, g = case
         n, fails = run_chunk(a, k)
-        if g:
-            mine = [(t, w) for t, w in fails if t in groups()[g][1]]
-        else:
-            known = set().union(*(ts for _, ts in groups().values()))
-            mine = [(t, w) for t, w in fails if t not in known]
+        mine = split_failures("C14", fails, g)
         if not mine:
             return (True, "", n > 0)
         seen = {}
